@@ -50,9 +50,15 @@ def solve_args(f):
     return [f, Opq("cfl"), SeqSym("tsave"), Opq("stop"), Opq("flush"), Opq("monitors"), Opq("directives")]
 
 
+ROLE_NAMES = ("f", "condition", "tsave", "stop", "flush", "monitors", "directives")
+
+
 def bind_params(func, f):
     vals = solve_args(f)
     names = func.params[1:]
+    if sorted(names[:len(vals)]) == sorted(ROLE_NAMES) and list(names[:len(vals)]) != list(ROLE_NAMES):
+        # the documented parameter names in another order: the NAME carries the role (callers pass them by keyword)
+        vals = [vals[ROLE_NAMES.index(n)] for n in names[:len(vals)]]
     dfl = func.defaults()
     extra = names[len(vals):]
     if len(names) < len(vals) or any(n not in dfl for n in extra):
@@ -637,6 +643,53 @@ def analyse_check_end(proj, res):
         res.bad("DRV-STOP", text + (": the run does not stop at the first step that reaches the limit" if want else ": the run stops before the limit is reached"), f.node.lineno, key)
 
 
+def _roles_in(v, seen=None):
+    """the caller-argument roles a value is built from"""
+    out = set()
+    if isinstance(v, Opq):
+        if v.name.split(".")[0].split("(")[0] in ROLE_NAMES or v.name == "cfl":
+            out.add(v.name.split(".")[0].split("(")[0])
+    elif isinstance(v, dict):
+        for x in v.values():
+            out |= _roles_in(x)
+    elif isinstance(v, (list, tuple)):
+        for x in v:
+            out |= _roles_in(x)
+    return out
+
+
+def forwarded(res, name, fn, heads):
+    """DRV-FORWARD: the dictionaries the caller gives to solve()/restart() reach the use the documentation gives them: `stop`
+    -> the criteria _check_end tests, `monitors` -> the monitors _parse_monitors runs, `directives` -> the option switches.
+    (two dictionaries exchanged in a positional call are type-correct, run, and silently ignore the caller's options)"""
+    # (with stop=None only the default criterion is left: `stop` must arrive on SOME path and nothing else on any)
+    if not any("stop" in _roles_in(e[4]) for h in heads for e in h.events if e[0] == "check_end"):
+        res.bad("DRV-FORWARD", "%s: the criteria given to _check_end are never built from the caller's `stop` argument" % name, fn.node.lineno, name + "-stop")
+        return False
+    for h in heads:
+        for e in h.events:
+            if e[0] == "check_end":
+                r = _roles_in(e[4])
+                if isinstance(e[4], dict):
+                    extra = [k for k, v in e[4].items() if not (k == "tottime" or (k.startswith("**") and isinstance(v, Opq) and v.name == "stop"))]
+                    if extra:
+                        res.bad("DRV-FORWARD", "%s: the criteria given to _check_end hold %s besides the last save time and the caller's `stop` entries: a criterion the caller did not ask for ends a run that needs longer before its last save time (the field list comes back short, without an error)" % (name, ", ".join(repr(k) for k in extra)), e[2], name + "-extra-criterion")
+                        return False
+                if r - {"stop", "tsave"}:
+                    res.bad("DRV-FORWARD", "%s: the criteria given to _check_end are built from %s, not from the caller's `stop` argument" % (name, sorted(r) or "no caller argument"), e[2], name + "-stop")
+                    return False
+            elif e[0] == "monitors":
+                r = _roles_in(e[3])
+                if "monitors" not in r or r - {"monitors"}:
+                    res.bad("DRV-FORWARD", "%s: the dictionary given to _parse_monitors is built from %s, not from the caller's `monitors` argument (the caller's monitors never run; its run options are taken for monitors)" % (name, ["`%s`" % x for x in sorted(r)] or "no caller argument"), e[1], name + "-monitors")
+                    return False
+            elif e[0] == "switch":
+                if e[1] in ROLE_NAMES and e[1] != "directives" and e[1] != "stop":
+                    res.bad("DRV-FORWARD", "%s: the option switch %r is read from the caller's `%s` argument, not from `directives`" % (name, e[2], e[1]), e[3], name + "-switch")
+                    return False
+    return True
+
+
 def analyse_entry_points(proj, res):
     """solve / restart: counters reset, itstart, delegation to _solve with the caller's arguments"""
     cls = proj.cls("integration.timemodel")
@@ -693,5 +746,7 @@ def analyse_entry_points(proj, res):
                 res.bad("DRV-RESET", "%s does not pass its CFL argument to _solve" % name, fn.node.lineno, name + "-cfl")
                 okreset = False
                 break
+        if okreset:
+            okreset = forwarded(res, name, fn, heads)
         if okreset:
             res.ok("DRV-RESET", "%s resets _nit := 0, _itstart := %s and delegates to _solve with the caller's field, CFL, save times" % (name, "0" if name == "solve" else "max(f.it, 0)"))
